@@ -2,5 +2,9 @@
 pub mod engine;
 pub mod util;
 pub mod model;
+pub mod codec;
+pub mod gen;
+pub mod containers;
+pub mod vpltree;
 
 pub use engine::{guard, Check, Fail, Obs, Tier};
